@@ -193,7 +193,7 @@ def _first_diff_kind(a, b):
     return "length"
 
 
-SPELL = ["canon", "pushn_hex", "pushn_dec", "pushn_hex_upper", "pushn_wide", "push_0x", "push_lead0", "push_upper"]
+SPELL = ["canon", "pushn_hex", "pushn_dec", "pushn_hex_upper", "pushn_wide", "push_0x", "push_lead0", "push_upper", "push0_mnemonic"]
 
 
 def spell(c, how):
@@ -214,6 +214,8 @@ def spell(c, how):
         return "PUSH 000%x" % c
     if how == "push_upper":
         return "PUSH %X" % c
+    if how == "push0_mnemonic":
+        return "PUSH0" if c == 0 else "PUSH %x" % c
     raise ValueError(how)
 
 
@@ -240,6 +242,11 @@ def check_spelling(c, how, push0, stats):
             got = int(seq[0][1], 16)
         except Exception:
             got = None
+    if seq and seq[0][0] == "PUSH0" and not push0:
+        # with PUSH0 disabled a zero is the constant PUSH 0 however it was written (the reader's own comment: "interpreted as
+        # one form or the other depending on the flag"); a PUSH0 item would be priced and emitted as PUSH0 downstream
+        fails.append(runner.Failure("spelling-item", how, "%r read as a PUSH0 item although PUSH0 is disabled: %s" % (text, seq),
+                                    {"type": "spelling", "c": c, "how": how, "push0": push0}))
     if got != c or len(seq) != 2 or seq[1][0] != "POP":
         fails.append(runner.Failure("spelling-value", how, "%r parsed as %s (expected the constant %#x followed by POP)" % (text, seq, c),
                                     {"type": "spelling", "c": c, "how": how, "push0": push0}))
@@ -368,6 +375,21 @@ def _dispatch(fn, a):
     return fn(*a)
 
 
+BOUNDARY_CONSTANTS = [0, 1, 9, 10, 15, 16, 0xFF, 0x100, 0xFFFF, 0x10000, (1 << 160) - 1, 1 << 255, (1 << 256) - 1]
+
+
+def shard_spellings(cases, sd):
+    """every spelling x boundary constant x PUSH0 setting (deterministic sweep)"""
+    hermetic.setup_repo()
+    stats = runner.Stats()
+    for c, how, p0 in cases:
+        fs = check_spelling(c, how, p0, stats)
+        if fs:
+            for x in pipeline.confirmed(fs, lambda: _redo(fs), stats):
+                stats.fail(x)
+    return stats
+
+
 def main(tier, seed_):
     t0 = time.time()
     hermetic.setup_repo()
@@ -383,6 +405,8 @@ def main(tier, seed_):
     per = max(1, n // runner.NPROC)
     jobs = [(shard_docs, (ch, 0)) for ch in runner.chunks(files, runner.NPROC) if ch]
     jobs += [(shard_random, (per, runner.shard_seed(seed_, i, "c15"))) for i in range(runner.NPROC)]
+    sweep = [(c, how, p0) for c in BOUNDARY_CONSTANTS for how in SPELL for p0 in (True, False)]
+    jobs += [(shard_spellings, (ch, 0)) for ch in runner.chunks(sweep, runner.NPROC) if ch]
     res = runner.run_shards(_dispatch, jobs)
     stats.merge(runner.merge_stats(res))
     return runner.conclude(ID, tier, seed_, stats, RULE, ASSUME, t0, exhaustive=False,
